@@ -216,6 +216,10 @@ func cdcExecCodec(c *cdcCodecCase) []string {
 	} else {
 		lines = append(lines, fmt.Sprintf("op junk %d => %d %d", len(c.Junk), n, rd.Len()))
 		lines = append(lines, "op content "+strings.Join(rel.content(), " "))
+		// the complete exported state of the reloaded index against the source's, field by
+		// field (implementation against implementation, exact)
+		lines = append(lines, "op state s0 src => "+strings.Join(src.content(), " "))
+		lines = append(lines, "op state s0 reload => "+strings.Join(rel.content(), " "))
 		for i, q := range c.Queries {
 			lines = append(lines, fmt.Sprintf("op q q%d reload => %s", i, rel.query(q)))
 		}
@@ -234,6 +238,7 @@ func cdcExecCodec(c *cdcCodecCase) []string {
 				cidx = nil
 			} else {
 				lines = append(lines, fmt.Sprintf("op canonload %s %d %s => ok", cdcHexB(canon), n, strings.Join(cidx.content(), " ")))
+				lines = append(lines, "op state s0 canon => "+strings.Join(cidx.content(), " "))
 				for i, q := range c.Queries {
 					lines = append(lines, fmt.Sprintf("op q q%d canon => %s", i, cidx.query(q)))
 				}
@@ -241,36 +246,46 @@ func cdcExecCodec(c *cdcCodecCase) []string {
 		}
 	}
 
-	// continuation: the same further history on source, reloaded and canon-loaded index
+	// continuation: the same further history on source, reloaded and canon-loaded index;
+	// after EVERY further op the answers (ids and exact score bits) and the exported state
+	// must agree.  HNSW: Flush (and an Add that purges) elects a new entry point in Go map
+	// order, so two equal indexes may legitimately diverge once a removal has happened in
+	// the continuation; answers / state are compared up to the first removal there, the
+	// outcomes always.
 	if err == nil {
-		for j, cmd := range c.Cont {
-			lines = append(lines, fmt.Sprintf("op eq cont%d => %s", j, src.apply(cmd)))
-			lines = append(lines, fmt.Sprintf("op eq cont%d => %s", j, rel.apply(cmd)))
-			if cidx != nil {
-				lines = append(lines, fmt.Sprintf("op eq cont%d => %s", j, cidx.apply(cmd)))
-			}
+		comparable := true
+		idxs := []*cdcAnyIndex{src, rel}
+		names := []string{"src", "reload"}
+		if cidx != nil {
+			idxs, names = append(idxs, cidx), append(names, "canon")
 		}
-		// HNSW: Flush elects the new entry point in Go map order (first vertex of the top
-		// level it meets), so after a continuation with removals two equal indexes may
-		// legitimately differ in the entry point; only the outcomes are compared there
-		if len(c.Cont) > 0 && c.P.vecKind() != "hnsw" {
-			// flush all, then compare content (PQ kinds: the source still holds raw vectors,
-			// which the accessors do not export) and answers
-			src.apply(cdcCcmd{Op: "flush"})
-			rel.apply(cdcCcmd{Op: "flush"})
-			lines = append(lines, "op eq contcontent => "+strings.Join(cdcCanonTokens(src), " "))
-			lines = append(lines, "op eq contcontent => "+strings.Join(cdcCanonTokens(rel), " "))
-			if cidx != nil {
-				cidx.apply(cdcCcmd{Op: "flush"})
-				lines = append(lines, "op eq contcontent => "+strings.Join(cdcCanonTokens(cidx), " "))
+		compare := func(tag string) {
+			for k, x := range idxs {
+				lines = append(lines, fmt.Sprintf("op state %s %s => %s", tag, names[k], strings.Join(x.content(), " ")))
 			}
 			for i, q := range c.Queries {
-				lines = append(lines, fmt.Sprintf("op q c%d src => %s", i, src.query(q)))
-				lines = append(lines, fmt.Sprintf("op q c%d reload => %s", i, rel.query(q)))
-				if cidx != nil {
-					lines = append(lines, fmt.Sprintf("op q c%d canon => %s", i, cidx.query(q)))
+				for k, x := range idxs {
+					lines = append(lines, fmt.Sprintf("op q %sq%d %s => %s", tag, i, names[k], x.query(q)))
 				}
 			}
+		}
+		for j, cmd := range c.Cont {
+			for _, x := range idxs {
+				lines = append(lines, fmt.Sprintf("op eq cont%d => %s", j, x.apply(cmd)))
+			}
+			if cmd.Op == "remove" && c.P.vecKind() == "hnsw" {
+				comparable = false
+			}
+			if comparable {
+				compare(fmt.Sprintf("k%d", j))
+			}
+		}
+		if len(c.Cont) > 0 && comparable {
+			// flush all, then compare once more
+			for _, x := range idxs {
+				x.apply(cdcCcmd{Op: "flush"})
+			}
+			compare("kf")
 		}
 	}
 	return append(lines, "end")
